@@ -147,7 +147,25 @@ def publication_rules(prog, chk, pid):
         pub = [(i, s) for i, s in enumerate(body) if isinstance(s, ast.Assign) and any(_is_shared_attr(t, ("__precompute",)) for t in s.targets)]
         ok = len(pub) == 1 and isinstance(pub[0][1].value, ast.Name)
         why = "expected exactly one top-level publishing assignment self.__precompute = <local>"
-        if ok:
+        anywhere = [s for s in ast.walk(m.node) if isinstance(s, ast.Assign) and any(_is_shared_attr(t, ("__precompute",)) for t in s.targets)]
+        if not ok and len(anywhere) == 1 and len(anywhere[0].targets) == 1:
+            # the other way of publishing a complete value: the table is built by an expression and assigned in the same statement -- list(<generator call>),
+            # a comprehension or a display; no name refers to it before it is published, so nothing can change it afterwards except through the attribute (R1)
+            v = anywhere[0].value
+            fresh_expr = isinstance(v, (ast.ListComp, ast.List, ast.Tuple)) or (isinstance(v, ast.Call) and isinstance(v.func, ast.Name) and v.func.id in ("list", "tuple") and len(v.args) == 1
+                                                                                  and isinstance(v.args[0], (ast.Call, ast.GeneratorExp, ast.ListComp)))
+            if fresh_expr and not any(_is_shared_attr(n, ("__precompute",)) for n in ast.walk(v)):
+                pub = [(0, anywhere[0])]
+                chk.ok(P("publish-last"), m.qualname, "self.__precompute = %s" % ast.unparse(v)[:50], "%s:%d" % (m.file, anywhere[0].lineno),
+                       "the table is built by one expression and published by the same statement: no partially built list is ever reachable from the attribute")
+                continue_publish = True
+            else:
+                continue_publish = False
+        else:
+            continue_publish = False
+        if continue_publish:
+            pass
+        elif ok:
             i, s = pub[0]
             local = s.value.id
             later = [n for st in body[i + 1:] for n in ast.walk(st) if isinstance(n, ast.Name) and n.id == local and not isinstance(n.ctx, ast.Load)]
@@ -157,7 +175,8 @@ def publication_rules(prog, chk, pid):
             # not nested in a loop/branch: publication is the statement after the loop
             ok = not later and not later_mut and fresh
             why = "the table is mutated after it was published, or the local is not a freshly created list"
-        chk.require(ok, P("publish-last"), m.qualname, "precompute = []; ...; self.__precompute = precompute", "%s:%d" % (m.file, pub[0][1].lineno if pub else m.node.lineno),
+        if not continue_publish:
+          chk.require(ok, P("publish-last"), m.qualname, "precompute = []; ...; self.__precompute = precompute", "%s:%d" % (m.file, pub[0][1].lineno if pub else m.node.lineno),
                     "the lazily built table becomes visible by one final assignment of a completely built fresh list", why)
         # ---- snapshot reads
         for mname, m in cls.methods.items():
